@@ -14,7 +14,7 @@
     functions, repeated in one process and in fresh processes: any difference -> VIOLATION; the common answer must be the
     MinHash of the SET (order/repetition independent, element-wise minimum over a union) -> else broken tie.
     End to end: families of near-identical large functions (LSH feature counts just above 256 and upwards, measured through the
-    hook) analysed 4-6 times with `lsh_enabled = "true"` and several lsh_similarity_threshold values (default, 0.78, ...);
+    hook) analysed 4-5 times with `lsh_enabled = "true"` and several lsh_similarity_threshold values (default, 0.78, ...);
     thorough tier also LSH auto mode (lsh_auto_threshold lowered to 3 fragments). Reports must be identical.
 """
 import json
@@ -602,7 +602,7 @@ def big_families(ck, tier):
     then spread up to ~1.5x (quick) / ~2.5x (thorough). Returns (files, [(family, lines, features)])."""
     import random
     rng = ck.rng
-    ladder = list(range(70, 126, 5)) if tier == "quick" else list(range(70, 126, 5)) + [135, 145, 160, 180, 200]
+    ladder = list(range(70, 126, 5)) if tier == "quick" else list(range(70, 126, 5)) + [135, 145, 160]
     cands = [(ln, rng.randrange(1 << 30)) for ln in ladder for _ in range(2)]
     reqs = [{"op": "det_minhash", "files": [{"path": "c.py", "text": c05proj.big_family(random.Random(sd), "m", ln, 1)[0][1]}],
              "hashes": 8, "bands": 2, "rows": 4, "repeat": 1} for ln, sd in cands]
@@ -613,7 +613,7 @@ def big_families(ck, tier):
             ck.broken_ties.append("det_minhash cannot take the fragments of a generated %d-line function: %s" % (ln, r.get("error")))
             continue
         sized.append((max(r["counts"]), ln, sd))
-    targets = (262, 290) if tier == "quick" else (258, 270, 285, 300, 320, 350, 390, 440, 520)
+    targets = (262, 290) if tier == "quick" else (258, 270, 285, 300, 330, 380)
     chosen, files, info = [], {}, []
     for t in targets:
         pool = [x for x in sized if x[0] > 256 and x not in chosen]
@@ -748,8 +748,8 @@ def big_cli_start(ck, tier, big_files, info):
         big_files = {k: v for k, v in big_files.items() if k.startswith(keep)}
         info = [x for x in info if x[2] > 256]
     c05proj.write_project(big_files, src)
-    n = 4 if tier == "quick" else 6
-    ths = [None, 0.78] if tier == "quick" else [None, 0.3, 0.5, 0.65, 0.78, 0.85, 0.9, 0.97]
+    n = 4 if tier == "quick" else 5
+    ths = [None, 0.78] if tier == "quick" else [None, 0.65, 0.78, 0.9]
     cfgs = []
     for th in ths:
         cfg = '[clones]\nlsh_enabled = "true"\n' + ("" if th is None else "lsh_similarity_threshold = %s\n" % th)
@@ -759,7 +759,6 @@ def big_cli_start(ck, tier, big_files, info):
         # auto mode takes the LSH path when the project has >= lsh_auto_threshold fragments (default 500: one run on 560 generated
         # fragments takes > 5 minutes, so the threshold is lowered instead of the project enlarged)
         cfgs.append(("lsh-auto-3", '[clones]\nlsh_enabled = "auto"\nlsh_auto_threshold = 3\nlsh_similarity_threshold = 0.78\n'))
-        cfgs.append(("lsh-auto-3-default", '[clones]\nlsh_enabled = "auto"\nlsh_auto_threshold = 3\n'))
     ex = ThreadPoolExecutor(max_workers=8 if tier == "quick" else 12)
 
     def one(name, cfg, i):
@@ -854,7 +853,7 @@ def main(tier):
                 "(N = 6 quick, 30 thorough; GOMAXPROCS 1/2/16); every emission site must give one output for all arrival orders "
                 "and that output must equal the Coq model's; MinHash signatures / LSH band keys / candidate sets / estimates of one "
                 "feature set must be identical over repetitions in one process and over fresh processes, and be the MinHash of the set "
-                "(order- and repetition-independent, element-wise minimum over a union); reports of 4 (thorough 6) runs with LSH forced on "
+                "(order- and repetition-independent, element-wise minimum over a union); reports of 4 (thorough 5) runs with LSH forced on "
                 "on families of large near-identical functions must be identical",
         "input_distribution": "testdata/python copy + generated tie-rich projects (equal complexities, two/three terminators within "
                               "5 lines, equal CBO with 3 dependencies, 4+ two-cycles and 3 three-cycles, four equal-length import chains "
@@ -863,9 +862,9 @@ def main(tier):
                               "with 10/100/255/256/257/300/500/1000 distinct features (thorough: also 1..4096 around every power of two) x "
                               "(hashes, bands, rows) in {(128,32,4) default, (64,16,4), (120,24,5), (32,32,1)}, each as A / A reordered with "
                               "repetitions / near-duplicate / two parts with union A, plus the fragments of the generated large functions; "
-                              "large-function projects: families of 3 near-identical random 70-125 (thorough -200) line functions chosen "
-                              "by measured LSH feature count (quick 262/290, thorough 258..520, one control <= 256), lsh_enabled=true, "
-                              "lsh_similarity_threshold default/0.78 (thorough 0.3..0.97), GOMAXPROCS 1/2/16; thorough: LSH auto "
+                              "large-function projects: families of 3 near-identical random 70-125 (thorough -160) line functions chosen "
+                              "by measured LSH feature count (quick 262/290, thorough 258..380, one control <= 256), lsh_enabled=true, "
+                              "lsh_similarity_threshold default/0.78 (thorough also 0.65, 0.9, star grouping), GOMAXPROCS 1/2/16; thorough: LSH auto "
                               "mode with lsh_auto_threshold = 3 (a 500-fragment project costs > 5 min per run: not run)",
         "observable_orders": "Go randomises the start of every map range: with n >= 3 tied keys a missing tie-break shows up in 6 runs "
                              "with probability >= 1 - (1/3)^5; injected orders cover all n! orders for n <= 4",
